@@ -16,7 +16,8 @@ from vf.models import codec
 REPS = [(4, 'hello'), (4, ''), (4, {'a': [1, 'x']}), (4, b'\x00\x01\xff'),
         (2, 'probe'), (3, 'probe'), (6, None), (4, 'b64-looking')]
 REPS_EXTRA = [(4, b''), (4, 'é٣\U0001F600'), (4, 'a+b c%2B&d=1'), (1, None),
-              (4, [1, 2.5, None]), (5, None), (0, {'sid': 's'}), (4, '"q"')]
+              (4, [1, 2.5, None]), (5, None), (0, {'sid': 's'}), (4, '"q"'),
+              (4, 'C:\\new\\table'), (4, {'text': 'line1\nline2\ttab', 'p': 'a\\nb'})]      # backslashes, escaped and real newlines
 ALPHA = ['4', '0', '9', 'b', '\x1e', '"', '[', '{', 'A', '=', '!', '٣', 'd', '%']
 LIMIT = 16
 
